@@ -29,8 +29,15 @@ Step(e) == CASE e.ev = "Begin"       -> Begin(e.kind)
              [] e.ev = "CommitEnd"   -> CommitEnd(e.ok)
              [] e.ev = "End"         -> End(e.ok)
              [] OTHER                -> FALSE
-TraceNext == l <= Len(Trace) /\ l' = l + 1 /\ Step(Trace[l])
-TraceSpec == TraceInit /\ [][TraceNext]_tvars
-\* acceptance: TLC must never be stuck before the end of the trace
-NotStuck == l > Len(Trace) \/ ENABLED TraceNext
+\* A rejected event does not stop the validation: it is reported (REJECT line), the rest of that
+\* execution is skipped, and validation resumes at the next Begin.
+VARIABLE skip
+Reset == phase' = "idle" /\ nwrites' = 0 /\ UNCHANGED <<kind, nexec>>
+TraceNext ==
+  /\ l <= Len(Trace) /\ l' = l + 1
+  /\ LET e == Trace[l] IN
+     IF skip /\ e.ev # "Begin" THEN UNCHANGED <<lvars, skip>>
+     ELSE IF ENABLED Step(e) THEN Step(e) /\ skip' = FALSE
+     ELSE PrintT(<<"REJECT", l>>) /\ Reset /\ skip' = TRUE
+TraceSpec == TraceInit /\ skip = FALSE /\ [][TraceNext]_<<tvars, skip>>
 ====
